@@ -608,4 +608,34 @@ func ShuffleRand
   ensures[perm]   isperm(slice)
   ensures[source] sameperm(sortperm, shufperm(randstate(rand), len(slice)))
   assigns elems(slice)
+
+// ---------------------------------------------------------------- C14 (continued): Except, ExceptSet
+// the order-preserving subsequence of s[0:k] of the elements outside a membership array ex (element -> bool);
+// the exclusion set is known only through the sets.Set interface contract (sets/zz_contracts_verif.go)
+spec xlen(ex, s []E, k int) int
+spec xat(ex, s []E, k int, j int) elem(s)
+axiom xlen_zero(ex, s): xlen(ex, s, 0) == 0
+axiom xlen_step(ex, s, k): k >= 0 ==> xlen(ex, s, k+1) == xlen(ex, s, k) + b2i(!ex[s[k]])
+axiom xat_step(ex, s, k, j): k >= 0 ==> ident(xat(ex, s, k+1, j), ite(j < xlen(ex, s, k), xat(ex, s, k, j), s[k]))
+
+func ExceptSet
+  property C14
+  opt subrefs on
+  requires exclude != nil
+  ensures[len]   len(result) == xlen(memrow(exclude), slice, len(slice))
+  ensures[elems] forall j :: 0 <= j && j < len(result) ==> result[j] == xat(memrow(exclude), slice, len(slice), j)
+  ensures[fresh] fresh(result)
+  loop 0 use xlen_zero(memrow(exclude), slice)
+  loop 0 use xlen_step(memrow(exclude), slice, rangeindex + 1)
+  loop 0 use forall j :: {xat(memrow(exclude), slice, rangeindex + 2, j)} xat_step(memrow(exclude), slice, rangeindex + 1, j)
+  loop 0 invariant -1 <= rangeindex && rangeindex < len(slice) && fresh(result)
+  loop 0 invariant len(result) == xlen(memrow(exclude), slice, rangeindex + 1)
+  loop 0 invariant forall j :: 0 <= j && j < len(result) ==> result[j] == xat(memrow(exclude), slice, rangeindex + 1, j)
+
+func Except
+  property C14
+  opt subrefs on
+  ensures[len]   len(result) == xlen(setof(exclude), slice, len(slice))
+  ensures[elems] forall j :: 0 <= j && j < len(result) ==> result[j] == xat(setof(exclude), slice, len(slice), j)
+  ensures[fresh] fresh(result)
 @*/
